@@ -336,6 +336,14 @@ def cli_roundtrip(chk, tuc_binary, n, want=None):
             if m in ("badbounds", "reject") and not (st == "1" and out == b""):
                 chk.report_tie("K-cli: the model rejects an argv the binary runs", {"component": "K-cli", "argv": argv, "case": l, "binary": [st, out.hex()], "model": m})
             continue
+        # direct oracle: the executed specification, when the mode has one (a concrete argv + stdin replay)
+        if _s not in ("-", ""):
+            sst, sout = parse_result(_s)
+            if (sst == "ok" and (st != "0" or sout != out)) or (sst == "fail" and st != "1"):
+                # -l has its own oracle (C05: plain bounds, non-degenerate inputs); -M excludes straddling records (C03)
+                if c.get("bt") != "l" and not c.get("M"):
+                    chk.report_oracle("the binary's output / exit status differ from the specification",
+                                      {"argv": argv, "stdin_hex": inp.hex(), "case": l, "binary": [st, out.hex()], "specification": _s})
         mst, mout = parse_result(m)
         chk.disagreements_checked += 1
         if (("0" if mst == "ok" else "1") != st) or mout != out:
